@@ -21,11 +21,13 @@ def run(chk):
     chk.samples.append({'exchange_paths': [domaha.classify(E, s)['names'] for s in E.paths if s.status == 'done'][:12]})
     chk.extra.update(getattr(D, 'extra', {}))
     chk.absorb(ex)
-    try:
-        import callers
-        callers.c02_callers(chk)
-    except ImportError:
-        pass
+    import callers, sutmon
+    callers.monitor_attempt_loop(chk, chk.tier)
+    sutmon.monitor_start_update_check(chk, (1,))
+    sutmon.monitor_ping(chk, 1, 1)
+    sutmon.monitor_report(chk, 2)
+    keep = ('exchange-verifies-first', 'no-retry-after-forgery', 'forged-check-counts-as-failure', 'ping-bookkeeping', 'report-once')
+    chk.obligations = [o for o in chk.obligations if o.name in keep]
     chk.bounds['paths'] = 'all paths of do_omaha_request_and_update_context (no loops); header value <= 4 bytes (irrelevant to this property)'
     chk.assumptions += [
         'logging is off; RequestBuilder::build abstract with contract "metadata is Some iff a handler was given"',
